@@ -240,10 +240,25 @@ def c09(tier):
         for l in seq:
             g += [run1(l, slot=0, tag=tag), run1(l, slot=1, tag=tag)]
         groups.append(g)
+    # a row that already shows Comm-B values (BDS 5,0 track / ground speed, BDS 6,0 vertical rate) received moments ago: the velocity
+    # squitter still decides ground speed, track and vertical rate
+    for h in range(8 if tier == 'quick' else 120):
+        a = 0x4b6800 + h
+        opts = OPTSETS[h % 4]
+        g = [reset(opts), run1(df11(5, a)), run1(long_(20, enc_alt13(33000), mb17(1, 1, 1, 1), a))]
+        for _ in range(4):
+            gs = rng.randint(60, 250)
+            g.append(run1(long_(rng.choice([20, 21]), enc_alt13(33000), mb50(rng.randint(-200, 200) or 1, rng.randrange(1, 2048), gs, rng.randint(-300, 300) or 1, max(1, min(250, gs + rng.randint(-40, 40)))), a)))
+            if rng.random() < 0.5:
+                g.append(tick(rng.choice([500, 5000, 9500, 10500])))
+            g.append(run1(df17(5, a, me_velocity(rng.choice([1, 1, 2]), rng.getrandbits(1), rng.randint(1, 1023), rng.getrandbits(1), rng.randint(1, 1023), rng.getrandbits(1), rng.randint(1, 511)))))
+            g.append(run1(long_(20, enc_alt13(33000), mb60(rng.randrange(1, 2048), rng.randint(1, 1023), rng.randint(1, 250), rng.randint(-187, 187) or 2, rng.randint(-187, 187) or -2), a)))
+            g.append(run1(df17(5, a, me_velocity(1, rng.getrandbits(1), rng.randint(1, 1023), rng.getrandbits(1), rng.randint(1, 1023), rng.getrandbits(1), rng.randint(1, 511)))))
+        groups.append(g)
     conform(rep, 'C09', groups)
     rep.rule = ('TC19 subtype 1/2 frames: boundary product of component fields {0,1,2,3,511,512,1022,1023}^2 x signs, every value '
                 'of each component, all 2x512 vertical-rate codes, diagonals/axes, near-integer-degree pairs, %d random%s; as update '
-                'and first frame; option sets. Non-trivial = applied TC19 subtype 1/2 frame' %
+                'and first frame; option sets; also right after BDS 5,0 / 6,0 replies that set the same columns. Non-trivial = applied TC19 subtype 1/2 frame' %
                 (n_rand, ', 256x256 lattice of one quadrant and all small-magnitude pairs' if tier == 'thorough' else ''))
     vlib.nt_floor(rep, 1000)
     return rep
@@ -350,6 +365,7 @@ def c02(tier):
     lines.append(list(('@' + '%012X' % rng.getrandbits(48) + valid[0] + ';\r').encode()))
     lines.append(list(('  ' + valid[1].lower() + '  ').encode()))
     groups = []
+    crafted = []
     for opts in ([], ['-U']):
         for i in range(0, len(lines), 50):
             part = lines[i:i + 50]
@@ -366,6 +382,27 @@ def c02(tier):
     for o in ([], ['-U']):
         groups += scn.groups_from_trie(trie, alpha_l, o, split_depth=1)
     rep.extra['model_transitions_replayed'] = 2 * scn.count_edges(trie)
+    # digits far behind a complete record still count: record, padding without hex digits up to column N, more digits
+    for v in valid:
+        for N in (15, 20, 29, 31, 32, 33, 41, 48, 63, 64, 65, 80, 100, 127, 128, 129, 255, 256, 257, 512, 1024, 4096, 8192, 65536):
+            pad = rng.choice([' ', '\t', ';', 'x', '-', '\r'])
+            more = rng.choice(['a', '0', 'F', 'beef', '7' * 14])
+            crafted.append(list((v + pad * max(0, N - len(v)) + more).encode()))
+        crafted.append(list((v + ';      <- dropped by the feeder, bad checksum').encode()))
+        crafted.append(list((v + ';' + ' ' * 60 + v).encode()))
+    groups.append([reset([])] + [run1(l, direct=True) for l in crafted] + [run1(df11(5, a))] + [run1(l, direct=True) for l in crafted])
+    # what a line does depends on its own digits only, not on the line before it: the same frame twice in a row (plain,
+    # re-decorated, with an unusable line in between), one line per reader run and as a single run
+    nseg2 = 0
+    for k, opts in enumerate(OPTSETS):
+        a2 = 0x484100 + k
+        for fr in nine_frames(a2, rng) + [long_(20, enc_alt13(38000), mb20(callsign_codes('SEGTWO')), a2), long_(21, enc_squawk(2, 3, 4, 5), mb20(callsign_codes('SEGTWO')), a2)]:
+            other = df11(5, a2 + 0x40)
+            deco = list(('@%012X' % rng.getrandbits(48) + fr.lower() + ';\r').encode())
+            for seq in ([fr, fr], [fr, deco], [fr, 'no frame here', fr], [fr, '', deco], [other, fr, fr], [fr, fr, fr], [df11(0, a2), fr, fr]):
+                nseg2 += 1
+                groups.append([reset(opts, slot=0), reset(opts, slot=1)] + [run1(l, slot=0) for l in seq] + [runn(seq, slot=1, tag={'pair': 'seg2'})])
+    rep.extra['repeated_frame_sequences'] = nseg2
     # the last line of the input without a line end (also with a bare CR)
     for v in valid:
         for tail in ('', '\r', ';', ';\r'):
@@ -377,8 +414,11 @@ def c02(tier):
                 'time stamp; digit counts %s cut from valid frames; %d randomly decorated / case-mixed / digit-inserted variants '
                 '(decorations * @ ; blank tab CR g G x : - e-acute fullwidth-1 NUL); each on an empty table and on a table holding '
                 'the aircraft, with and without -U, with the public get_message/get_icao called on the same line. Every event is '
-                'judged (accept <=> oracle, reject => table untouched); distinct = distinct (line, context)'
-                % ('0..64' if tier == 'thorough' else 'around 0/14/26/28/40/64', nd))
+                'judged (accept <=> oracle, reject => table untouched); distinct = distinct (line, context). Also: complete records '
+                'followed by padding without digits up to columns 15..65536 and then more digits (must be refused); and %d sequences in which '
+                'a frame of each format directly follows itself (plain, re-decorated, across an unusable line), fed one line per reader run '
+                'and as one run under {none,-U,-R,-U -R}: the tables must agree (no state carried from line to line)'
+                % ('0..64' if tier == 'thorough' else 'around 0/14/26/28/40/64', nd, nseg2))
     vlib.nt_floor(rep, 300)
     return rep
 
@@ -529,7 +569,6 @@ def c04(tier):
     conform(rep, 'C04', groups, maxlen=2500)
     # all burst errors up to 12 (quick) / 24 (thorough) bits through the public get_message
     binary = vlib.build_harness('release')
-    maxlen = 12 if tier == 'quick' else 24
     # a 24-bit burst sweep costs 7*10^8 get_message calls (about an hour of CPU) per long squitter: the thorough tier sweeps
     # bursts up to 22 bits for the first two squitters and up to 16 bits for the others; by the algebra noted in ModeS.tla
     # (generator of degree 24 with constant term 1) the length does not matter for a correct CRC
@@ -627,7 +666,10 @@ def c01_optsets(tier):
     disp = [['-c'], ['-i', 'Q'], ['-i', ''], ['-i', 'zz'], ['-i', 'aAews'], ['-o', ''], ['-o', 'zz'], ['-o', 'sAaVvNSWEdDcC'],
             ['-d', '0'], ['-d=-1'], ['-d', '1'], ['-d', '1000000000'], ['-d=-9223372036854775807'], ['-d', '9223372036854775807'],
             ['-u', '0'], ['-u=-1'], ['-u', '1'], ['-u', '1000000000'], ['-u', '9000000000000000'], ['-u=-9223372036854775807'],
-            ['-u', '9223372036854775807'], ['-f', '99'], ['-f', '0', '-f', '31'], ['-c', '-f', '11'], ['-M', '17'], ['-O', 'x,y'], ['-O', '1e400, 5']]
+            ['-u', '9223372036854775807'], ['-f', '99'], ['-f', '0', '-f', '31'], ['-c', '-f', '11'], ['-M', '17'], ['-O', 'x,y'], ['-O', '1e400, 5'],
+            # observers that parse as floats but are not finite, with the orderings that use the distance / the coordinates
+            ['-O', 'nan,nan', '-o', 'd'], ['-O', 'inf,0', '-o', 'D'], ['-O', '0,1e999', '-o', 'dD'], ['-O', 'NaN, -inf', '-o', 'sdNSWE'],
+            ['-O', '91,181', '-o', 'dD'], ['--observer-coord=-1e308,1e308', '-o', 'Dd'], ['-f', '32'], ['-f', '36', '-f', '1073741860'], ['-c', '-f', '49']]
     return base, disp
 
 
@@ -656,8 +698,17 @@ def c01(tier):
             groups.append(g)
     # display / numeric option values: a short mixed stream each
     mixed = [list(x.encode()) for x in other_format_frames(0x4d2023, rng)]
+    # two aircraft, one of them with a position fix (so that distance and coordinate orderings have something to compare)
+    posmix = [list(x.encode()) for x in (df17(5, 0x4d2024, me_ident(4, 1, callsign_codes('NOFIX'))),
+                                         df17(5, 0x4d2025, me_airpos(11, 0, enc_alt12(12000), 0, *cpr_encode(52.25, 3.92, 0))),
+                                         df17(5, 0x4d2025, me_airpos(11, 0, enc_alt12(12000), 1, *cpr_encode(52.25, 3.92, 1))),
+                                         df17(5, 0x4d2026, me_airpos(11, 0, enc_alt12(9000), 1, *cpr_encode(-33.9, -151.2, 1))),
+                                         df17(5, 0x4d2026, me_airpos(11, 0, enc_alt12(9000), 0, *cpr_encode(-33.9, -151.2, 0))),
+                                         df17(5, 0x4d2024, me_ident(4, 1, callsign_codes('NOFIX'))))]
+    mixed = mixed + posmix
     for d in disp:
-        g = [{'c': 'reset', 'opts': d, 'slot': 0}]
+        # the display runs inside the reader thread: refresh after every frame when an ordering is given
+        g = [{'c': 'reset', 'opts': d + (['--update=-1'] if '-o' in d and not any(x.startswith('-u') for x in d) else []), 'slot': 0}]
         g.append(runn(mixed + [L[15]] + [list(sentinel().encode())]))
         for l in rng.sample(L, 12):
             g.append(runn([l, list(sentinel().encode())]))
@@ -715,7 +766,7 @@ def c01(tier):
         jobs = []
         for k, opts in enumerate(base + disp[:8] + disp[8:] if tier == 'thorough' else base[:4] + disp):
             part = sub[(k * per) % max(1, len(sub) - per):][:per] if len(sub) > per else sub
-            lines = []
+            lines = list(posmix)
             for l in part:
                 if len(l) > 5000:
                     continue
@@ -844,6 +895,11 @@ def c10(tier):
         lambda a: [df11(5, a)],
         lambda a: [df17(5, a, me_opstatus(2))],
         lambda a: [df11(5, a), df11(0, a)],
+        # DF18 comes from equipment that is not a transponder: its CF field (bits 6-8) opens or closes nothing
+        lambda a: [df11(0, a), df17(6, a, me_ident(4, 1, callsign_codes('ADSR')), df=18)],
+        lambda a: [short(4, enc_alt13(30000), a), df17(5, a, me_opstatus(2), df=18), df17(4, a, me_velocity(1, 0, 100, 1, 200, 0, 10), df=18)],
+        lambda a: [df11(5, a), df17(0, a, me_ident(4, 1, callsign_codes('TISB')), df=18)],
+        lambda a: [df17(7, a, me_ident(4, 1, callsign_codes('FIRST18')), df=18), df17(7, a, me_ident(4, 1, callsign_codes('FIRST18')), df=18)],
     ]
     adverts = [None] + [mb17(1, s & 1, (s >> 1) & 1, (s >> 2) & 1) for s in range(8)]
     k = 0
@@ -889,7 +945,7 @@ def c10(tier):
     rep.rule = ('DF20/DF21 replies whose MB is generated from physical values (roll +-50, track 0..360, rate +-16, GS/TAS to their limits '
                 'and across |GS-TAS|=200, heading, IAS, Mach to 1.0, rates +-6000, selected altitude, QNH 800..1210), boundary values of '
                 'every plausibility limit, one status bit cleared, one reserved bit set, zero value fields, BDS 1,0/2,0/3,0/1,7 and random MB; '
-                'after 7 capability states (no DF11, DF11 CA 0/3/4/5, DF17 CA5, CA5 then CA0) x {no advert, BDS 1,7 advertising each subset of '
+                'after 11 capability states (no DF11, DF11 CA 0/3/4/5, DF17 CA5, CA5 then CA0, and DF18 frames with CF 4..7 / 0 after CA 0 / nothing / CA 5) x {no advert, BDS 1,7 advertising each subset of '
                 '4,0/5,0/6,0} x option sets {none,-U,-R,-U -R}; also data before/after DF11 and advert. Non-trivial = a register that must be '
                 'decoded, or a fully valid register arriving while the gate is closed (spec-decided)')
     vlib.nt_floor(rep, 300)
@@ -951,7 +1007,15 @@ def c08(tier):
         p1 = cpr_encode(lat, lon, first_odd)
         p2 = cpr_encode(lat + dlat, lon + dlon, 1 - first_odd)
         p3 = cpr_encode(lat + 2 * dlat, lon + 2 * dlon, first_odd)
-        mk = lambda p, odd: df17(5, a, me_airpos(rng.choice([9, 11, 18]), 0, enc_alt12(rng.randrange(0, 40000, 25)), odd, p[0], p[1]))
+        # a position is a position whether or not the altitude of the frame decodes (not available, below -25 ft, Q=0 codes)
+        noalt = {1: (1, 1, 1), 2: (1, 0, 0), 3: (0, 1, 0), 4: (0, 0, 1), 5: (1, 0, 1)}.get(k % 11 if k % 2 else (k // 2) % 11, (0, 0, 0))
+        nth = [0]
+
+        def mk(p, odd):
+            bad = nth[0] < 3 and noalt[nth[0]]
+            nth[0] += 1
+            ac = rng.choice([0, 0x056, 16, 0x002, enc_alt12(-50), enc_alt12(-1000)]) if bad else enc_alt12(rng.randrange(0, 40000, 25))
+            return df17(5, a, me_airpos(rng.choice([9, 11, 18]), 0, ac, odd, p[0], p[1]))
         g = [reset(opts, obs=obs)]
         g.append(run1(mk(p1, first_odd)))                   # single frame: nothing shown
         if k % 3 == 0:                                      # other frames interleaved
@@ -981,6 +1045,7 @@ def c08(tier):
     rep.rule = ('true positions stratified over every NL zone in both hemispheres, both sides of %s zone boundaries (straddling pairs), equator, '
                 'antimeridian, prime meridian, |lat| up to 86.99, %d random; both parities first; second frame displaced by < 0.004 deg; delays '
                 '{0,3,9,9.9,10,10.1,11,60} s between the frames (stamp shifting); a third frame; zero CPR fields; velocity / DF4 frames interleaved; '
+                'frames whose altitude field does not decode (not available, below -25 ft, Q=0) in the first / second / third / all positions; '
                 '-U on/off; observers none / "90,0" / "-90, 0" / " 90 , 0 " / general, and exact same-meridian / opposite-meridian geometries. '
                 'Non-trivial = airborne-position frame arriving when the other parity slot is filled and the verdict (decode/keep) is determined'
                 % ('all 58' if tier == 'thorough' else '10', 20 if tier == 'quick' else 3000))
@@ -1368,9 +1433,11 @@ def c16(tier):
     subsets = [list(c) for r_ in range(0, 7) for c in itertools.combinations(dfs, r_)]
     if tier == 'quick':
         subsets = [[], [17], [4, 5], [11, 17, 20], [21], [0, 16], [18], [4, 5, 11, 17, 20, 21], [99], [5, 17],
-                   [21, 4], [21, 17, 4], [20, 5, 0], [17, 17], [5, 4, 21, 20]]
+                   [21, 4], [21, 17, 4], [20, 5, 0], [17, 17], [5, 4, 21, 20],
+                   [49], [21, 49], [36, 43, 53], [1073741841]]           # numbers that are a real format modulo 32: still match nothing
     else:
-        subsets += [[0], [16], [18], [0, 16, 18], [99], [17, 99]]
+        subsets += [[0], [16], [18], [0, 16, 18], [99], [17, 99], [49], [21, 49], [36, 37], [43, 52, 53], [32, 48, 50], [81], [260, 1073741841],
+                    [32], [33], [63], [64], [4 + 128], [17 + 256], [20 + 65536]]
         subsets += [list(reversed(x)) for x in subsets if len(x) > 1] + [[21, 4, 17], [20, 5, 0], [17, 17], [5, 21, 4, 20]]
     # (a) the bounded model: counters = number of applied frames per DF, filtered frames change nothing
     for filt in ('NoFilt', 'F17', 'F4_5'):
@@ -1730,12 +1797,12 @@ def c18(tier):
     import tcp
     rep = Report('C18', tier)
     r = vlib.tlc_model('MC_tcp', workers=8, timeout=1200)
-    rep.add_model(r, 'TCP life-cycle model: all scripts of <= 3 faults over {refuse, close, frames, partial+reset, junk} then a healthy connection: '
+    rep.add_model(r, 'TCP life-cycle model: all scripts of <= 3 faults over {refuse, close, frames, partial+reset, partial+close, junk} then a healthy connection: '
                      'ConnKeepsTable, NoLoss, PauseRespected (safety) and Recovers (liveness under weak fairness)')
     binary = vlib.build_cli('release')
     if tier == 'quick':
         seqs = [('refuse',), ('close',), ('frames', 'partial'), ('junk', 'refuse'), ('partial', 'frames'), ('frames', 'close', 'junk'),
-                ('refuse', 'refuse'), ('partial', 'partial', 'junk')]
+                ('refuse', 'refuse'), ('partial', 'partial', 'junk'), ('partialfin',), ('frames', 'partialfin', 'refuse'), ('partialfin', 'partialfin')]
     else:
         seqs = [s for n in (1, 2, 3) for s in itertools.product(tcp.FAULTS, repeat=n)]
     events = []
@@ -1752,7 +1819,7 @@ def c18(tier):
                 'script element and the healthy one, gap after n refusals within [5n-0.5, 5n+4] s, prompt reconnect (< 4.5 s) after close/reset, '
                 'process alive, last refresh lists exactly the aircraft whose complete frames were delivered on any connection (partial lines and junk '
                 'contribute nothing and break nothing). Non-trivial = sequence with at least one fault; distinct by fault sequence' %
-                ('6 fault sequences of length 1..3' if tier == 'quick' else 'all 155 fault sequences of length <= 3 over 5 fault kinds'))
+                ('11 fault sequences of length 1..3' if tier == 'quick' else 'all 258 fault sequences of length <= 3 over 6 fault kinds'))
     vlib.nt_floor(rep, 5)
     return rep
 
@@ -1880,6 +1947,13 @@ def junk_lines(rng):
     # lengths around buffer sizes (line + newline filling a power-of-two window exactly)
     for n in (1022, 1023, 1024, 4095, 4096, 8190, 8191, 8192, 8193, 16383, 16384, 32767, 65534, 65535, 65536, 65537, 131071):
         J.append([rng.choice(b'ghijklmnopqrstuvwxyz *;') for _ in range(n)])
+    # a complete record with surplus digits far behind it (beyond any plausible scan window), after a lone CR, after a remark
+    rec2 = short(4, enc_alt13(37000), 0x4077d4)
+    for N in (30, 41, 63, 64, 65, 100, 128, 200, 256, 512, 1024, 4096, 65536):
+        for v in (good, rec2):
+            J.append(list((v + ';' + rng.choice([' ', '\t', 'x', '.']) * max(0, N - len(v) - 1) + rng.choice(['a', '0', 'beef', 'F' * 13])).encode()))
+    J += [list((good + ';      <- dropped by the feeder, bad checksum').encode()), list((rec2 + '\r' + ' ' * 70 + rec2).encode()),
+          list((good + '\t' * 50 + '7' * 70000).encode()), list(('@%012X' % 77 + rec2 + ';' + '-' * 40 + 'c').encode())]
     return J
 
 
@@ -1959,12 +2033,22 @@ def c13(tier):
         dirty = [clean[0], j, clean[1], j, clean[2]]
         tag = {'pair': 'c13'}
         groups.append([reset([], slot=0), reset([], slot=1), runn(dirty, slot=0, tag=tag), runn(clean, slot=1, tag=tag)])
+    # long unbroken runs of unusable lines (every accepted line in between would reset whatever builds up across them)
+    nlong = 40000 if tier == 'quick' else 400000
+    for k, opts in enumerate([[], ['-U']] if tier == 'quick' else OPTSETS):
+        kinds = [[], [13], [0], list(b'junk'), [0xff, 0xfe], list(good_lines[0][:13]), [32]]
+        run_ = [kinds[(i * 7 + k) % len(kinds)] if k % 2 else kinds[k % len(kinds)] for i in range(nlong)]
+        clean = good_lines[:4]
+        dirty = [clean[0]] + run_ + [clean[1], clean[2]] + run_[:1000] + [clean[3]]
+        tag = {'pair': 'c13'}
+        groups.append([reset(opts, slot=0), reset(opts, slot=1), runn(dirty, slot=0, tag=tag), runn(clean, slot=1, tag=tag)])
     conform(rep, 'C13', groups, maxlen=400)
     rep.rule = ('%d stream pairs: a valid stream (shuffled generated frames of 1..3 aircraft, or a slice of rec/squitters.txt) and the same '
                 'stream with junk lines inserted (empty, NUL, 0x80-0xFF, truncated UTF-8, lone CR, blanks, text, truncated / over-long / '
-                'doubled frames, corrupted squitters, BOM, 66 KB lines) at every position (short streams) or random positions, each run as one '
+                'doubled frames, corrupted squitters, BOM, 66 KB lines, complete records followed by surplus digits beyond columns 30..65536 / a lone CR / a remark) at every position (short streams) or random positions, each run as one '
                 'multi-line reader run under the four option sets; TLC checks that the accepted-frame subsequences are equal and then that '
-                'the two tables are equal up to time stamps and both runs completed. Non-trivial = pair whose streams differ in length' % npairs)
+                'the two tables are equal up to time stamps and both runs completed; also unbroken runs of %d unusable lines between accepted ones. '
+                'Non-trivial = pair whose streams differ in length' % (npairs, nlong))
     vlib.nt_floor(rep, 50)
     return rep
 
